@@ -218,7 +218,7 @@ def run(ctx):
             "seed": st.integers(0, 1000),
         }
     ).map(pkt.norm_case)
-    ctx.explore(strat, lambda case: execute(ctx, case), ctx.scale(400, 30000))
+    ctx.explore(strat, lambda case: execute(ctx, case), ctx.scale(400, 10000))
 
 
 def replay(ctx, case):
